@@ -48,8 +48,8 @@ META = dict(
     "non-trivial = the operation's cascade closure contains more than the object itself or an orphan rule fired",
     assumptions=["SQLite", "single session", "cascade on the reverse many-to-one side is the default"],
     bounds=dict(
-        quick="U1: 48 configurations, U3: 48, U2: 32; histories <= 2 ops (<= 3 for the three preset cascades) after 2 roots; expire/refresh probes at depth <= 1",
-        thorough="same configurations; histories <= 3 ops after 3 roots, autoflush on and off",
+        quick="U1: all 48 configurations, U3: 26, U2: 17; histories <= 2 ops after 2 roots (empty, populated+committed), autoflush on; expire/refresh probes at every clean state",
+        thorough="U1 / U3: all 48, U2: all 32 configurations; histories <= 2 ops after 3 roots, autoflush on and off; <= 3 ops for U1 after the populated root",
     ),
 )
 SHARD_TIMEOUT = dict(quick=600, thorough=3000)
@@ -73,10 +73,13 @@ def shards(tier, seed):
     out = []
     presets = {c30.SU, c30.ALL, c30.ORPH}
     for wn, orphan in (("U1", True), ("U3", True), ("U2", False)):
-        for cs in cascade_strings(orphan):
-            for ri in ((0, 1) if tier == "quick" else (0, 1, 2)):
+        for ci, cs in enumerate(cascade_strings(orphan)):
+            if tier == "quick" and wn != "U1" and ci % 2 == 1 and cs not in presets:
+                continue  # quick: every configuration on U1, every second one on U3 / U2 (all of them in thorough)
+            for ri in ((0, 2 if wn == "U3" else 1) if tier == "quick" else (0, 1, 2)):
                 for af in ((True,) if tier == "quick" else (True, False)):
-                    out.append(dict(world=(wn, cs), root=ri, autoflush=af, depth=2 if tier == "quick" else 3))
+                    deep = tier != "quick" and wn == "U1" and ri == 1 and af
+                    out.append(dict(world=(wn, cs), root=ri, autoflush=af, depth=3 if deep else 2))
     return out
 
 
@@ -139,10 +142,13 @@ def step_checked(rec, w, shard, hist_, ms, op):
 
 
 def expire_probes(rec, w, shard, hist_, ms):
-    """at a reached state: for every persistent named object x, expire(x) and refresh(x) on fresh replicas with everything
-    loaded; the set of objects that become expired must be the closure over refresh-expire edges"""
+    """at a reached *clean* state (nothing pending, so loading the graph neither flushes nor shows stale rows): for
+    every persistent named object x, expire(x) and refresh(x) on fresh replicas with everything loaded; the set of
+    objects that become expired must be the closure over refresh-expire edges"""
+    if ms.dirty or any(o.life == "P" or o.marked for o in ms.objs.values()) or any(o.life == "D" and o.dbpk is not None for o in ms.objs.values()):
+        return
     wk = repr(shard["world"])
-    targets = [n for n, o in sorted(ms.objs.items()) if o.life == "S" and not o.marked and not n.startswith("~")]
+    targets = [n for n, o in sorted(ms.objs.items()) if o.life == "S" and not n.startswith("~")]
     for x in targets:
         want = set(ms.closure(x, "refresh-expire", lives="S"))
         for kind in ("expire", "refresh"):
@@ -155,8 +161,6 @@ def expire_probes(rec, w, shard, hist_, ms):
                         break
                 if not ok:
                     continue
-                if run.apply(("flush",))[0] == "exc":
-                    continue  # pending work that cannot be flushed: refresh would fail for unrelated reasons
                 for n in sorted(run.objs):
                     if run.objs[n] in run.session:
                         run.touch(run.objs[n])
@@ -166,21 +170,19 @@ def expire_probes(rec, w, shard, hist_, ms):
                 out = run.apply((kind, x))
                 rec.transition()
                 rec.trace()
+                case = dict(shard=shard, history=[list(o) for o in hist_], op=[kind, x], probe=True)
                 if out[0] == "exc":
-                    rec.violation("%s: %s(%s) raised %s | after %s" % (wk, kind, x, type(out[1]).__name__, ow.fmt_hist(hist_)), repr(out[1]),
-                                  dict(shard=shard, history=[list(o) for o in hist_], op=[kind, x], probe=True), kind=(wk, kind, "raised"))
+                    rec.violation("%s: %s(%s) raised %s | after %s" % (wk, kind, x, type(out[1]).__name__, ow.fmt_hist(hist_)), repr(out[1]), case, kind=(wk, kind, "raised"))
                     continue
-                got = {n for n in run.objs if n in ms.objs and ms.objs[n].life in "SX" and sa_inspect(run.objs[n]).expired} - pre
-                exp = set(want)
+                got = {n for n in run.objs if n in ms.objs and ms.objs[n].life == "S" and sa_inspect(run.objs[n]).expired} - pre
+                exp = {n for n in want if ms.objs[n].life == "S"}
                 if kind == "refresh":
                     exp.discard(x)
                     got.discard(x)
-                exp = {n for n in exp if ms.objs[n].life == "S"}
                 rec.case((wk, hist_, kind, x), nontrivial=len(want) > 1)
                 rec.outcome((kind, len(got)))
                 if got != exp:
-                    rec.violation("%s: %s(%s) expired %s, configured closure %s | after %s" % (wk, kind, x, sorted(got), sorted(exp), ow.fmt_hist(hist_)), "",
-                                  dict(shard=shard, history=[list(o) for o in hist_], op=[kind, x], probe=True), kind=(wk, kind, "closure"))
+                    rec.violation("%s: %s(%s) expired %s, configured closure %s | after %s" % (wk, kind, x, sorted(got), sorted(exp), ow.fmt_hist(hist_)), "", case, kind=(wk, kind, "closure"))
             finally:
                 run.close()
 
@@ -199,16 +201,19 @@ def run_shard(shard, tier, rec):
         m0 = r[0]
         h = h + (op,)
     presets = (c30.SU, c30.ALL, c30.ORPH)
-    depth = shard["depth"] + (1 if tier == "quick" and shard["world"][1] in presets and shard["root"] == 1 else 0)
-    probe_depth = {}
+    depth = shard["depth"]
+    if shard["world"][0] == "U3":
+        names = names[:3]  # three nodes are enough to have grandchildren; keeps 48 configurations affordable
+    probed = set()
 
     def enabled(ms):
         return ow.ref.enabled_ops(ms, names, kinds=KINDS, af=af)
 
     def step(hist_, ms, op):
         r = step_checked(rec, w, shard, hist_, ms, op)
-        if r is not None and len(hist_) + 1 - len(root) <= 1 and op[0] not in ("flush", "commit"):
-            if rec.state(("probe", repr(shard), r[1])):
+        if r is not None and op[0] in ("flush", "commit"):
+            if ("probe", r[0].canon()) not in probed:
+                probed.add(("probe", r[0].canon()))
                 expire_probes(rec, w, shard, hist_ + (op,), r[0])
         return r
 
